@@ -241,3 +241,79 @@ Lemma create_fields ty s d :
   field "suffixData" (create_members ty s d) = Some (img_suffix_data s) /\
   field "delta" (create_members ty s d) = Some (img_delta d).
 Proof. unfold create_members, opt_member. destruct (String.eqb_spec ty "") as [->|]; repeat split; reflexivity. Qed.
+
+(* ---- exact-name lookup under re-ordering ---- *)
+
+Lemma lookup_in (m : obj) : NoDup (keys m) -> forall k v, lookup k m = Some v <-> In (k, v) m.
+Proof.
+  induction m as [|[k' v'] r IH]; intros ND k v; [cbn; split; [discriminate|tauto]|].
+  inversion ND as [|? ? Hn NDr]; subst. cbn [lookup]. destruct (String.eqb_spec k k') as [->|N].
+  - split; [intros E; injection E as <-; now left|]. intros [E|I]; [now injection E as <-|].
+    exfalso. apply Hn. apply in_map_iff. exists (k', v). auto.
+  - rewrite (IH NDr). split; [intros I; now right|]. intros [E|I]; [injection E as <- <-; congruence|exact I].
+Qed.
+
+Lemma lookup_none_keys (m : obj) k : lookup k m = None <-> ~ In k (keys m).
+Proof.
+  induction m as [|[k' v'] r IH]; [cbn; tauto|]. cbn [lookup keys map fst]. destruct (String.eqb_spec k k') as [->|N].
+  - split; [discriminate|]. intros H. exfalso. apply H. now left.
+  - rewrite IH. unfold keys. split; [intros H [E|I]; [congruence|auto]|intros H I; apply H; now right].
+Qed.
+
+Lemma keys_perm m mp m' : Permutation m mp -> Forall2 same_members mp m' -> Permutation (keys m) (keys m').
+Proof.
+  intros P F. eapply perm_trans; [apply Permutation_map; exact P|].
+  assert (E : map fst mp = map fst m').
+  { clear - F. induction F as [|[a va] [b vb] l l' [Ea _] F IH]; [reflexivity|]. cbn [fst] in Ea. subst b. cbn [map fst]. now rewrite IH. }
+  unfold keys. rewrite E. apply Permutation_refl.
+Qed.
+
+Theorem lookup_jequiv k m m' : NoDup (keys m) -> jequiv (JObj m) (JObj m') ->
+  NoDup (keys m') /\ Permutation (keys m) (keys m') /\ opt_jequiv (lookup k m) (lookup k m').
+Proof.
+  intros ND E. destruct (jequiv_obj_inv _ _ E) as [mp [m2 [E2 [P F]]]]. injection E2 as <-.
+  pose proof (keys_perm _ _ _ P F) as Pk.
+  assert (ND' : NoDup (keys m')) by (eapply Permutation_NoDup; eauto).
+  split; [exact ND'|]. split; [exact Pk|]. unfold opt_jequiv.
+  destruct (lookup k m) as [v|] eqn:El.
+  - apply (lookup_in _ ND) in El. assert (Ip : In (k, v) mp) by (eapply Permutation_in; eauto).
+    assert (exists v', In (k, v') m' /\ jequiv v v') as [v' [I' Ev]].
+    { clear - F Ip. induction F as [|[a va] [b vb] l l' [Ea Eb] F IH]; [destruct Ip|]. cbn in Ea, Eb. subst b.
+      destruct Ip as [H|Ip]; [injection H as <- <-; exists vb; split; [now left|exact Eb]|].
+      destruct (IH Ip) as [v' [I' E']]. exists v'. split; [now right|exact E']. }
+    apply (lookup_in _ ND') in I'. now rewrite I'.
+  - apply lookup_none_keys in El. assert (El' : lookup k m' = None).
+    { apply lookup_none_keys. intros I. apply El. eapply Permutation_in; [apply Permutation_sym; exact Pk|exact I]. }
+    now rewrite El'.
+Qed.
+
+(* ---- JWK images ---- *)
+
+Definition jwk_members (k : jwk) : obj :=
+  ([("kty", JStr (k_kty k)); ("crv", JStr (k_crv k)); ("x", JStr (k_x k)); ("y", JStr (k_y k))]
+   ++ opt_member "n" (k_n k) ++ opt_member "e" (k_e k) ++ opt_member "nonce" (k_nonce k))%list.
+
+Theorem dec_jwk_jequiv k x : jequiv (img_jwk k) x -> dec_jwk (Some x) = Some (Some k).
+Proof.
+  intros E. change (img_jwk k) with (JObj (jwk_members k)) in E.
+  destruct (jequiv_obj_inv _ _ E) as [mp [m' [-> _]]].
+  assert (ND : NoDup (fnames (jwk_members k))).
+  { unfold jwk_members, opt_member. destruct (String.eqb (k_n k) ""), (String.eqb (k_e k) ""), (String.eqb (k_nonce k) "");
+      cbn; repeat constructor; cbn; intuition discriminate. }
+  assert (F : dec_string (field "kty" (jwk_members k)) = Some (k_kty k) /\ dec_string (field "crv" (jwk_members k)) = Some (k_crv k) /\
+              dec_string (field "x" (jwk_members k)) = Some (k_x k) /\ dec_string (field "y" (jwk_members k)) = Some (k_y k) /\
+              dec_string (field "n" (jwk_members k)) = Some (k_n k) /\ dec_string (field "e" (jwk_members k)) = Some (k_e k) /\
+              dec_string (field "nonce" (jwk_members k)) = Some (k_nonce k)).
+  { unfold jwk_members, opt_member.
+    destruct (String.eqb_spec (k_n k) "") as [->|], (String.eqb_spec (k_e k) "") as [->|], (String.eqb_spec (k_nonce k) "") as [->|];
+      cbn; repeat split; reflexivity. }
+  destruct F as [F1 [F2 [F3 [F4 [F5 [F6 F7]]]]]]. cbn [dec_jwk].
+  rewrite <- (dec_string_respects _ _ (field_opt_jequiv "kty" _ _ ND E)), F1.
+  rewrite <- (dec_string_respects _ _ (field_opt_jequiv "crv" _ _ ND E)), F2.
+  rewrite <- (dec_string_respects _ _ (field_opt_jequiv "x" _ _ ND E)), F3.
+  rewrite <- (dec_string_respects _ _ (field_opt_jequiv "y" _ _ ND E)), F4.
+  rewrite <- (dec_string_respects _ _ (field_opt_jequiv "n" _ _ ND E)), F5.
+  rewrite <- (dec_string_respects _ _ (field_opt_jequiv "e" _ _ ND E)), F6.
+  rewrite <- (dec_string_respects _ _ (field_opt_jequiv "nonce" _ _ ND E)), F7.
+  destruct k; reflexivity.
+Qed.
